@@ -17,6 +17,12 @@ def run_selftest(prop, A):
     out["seeded_reported"] = rs["reported"]
     out["seeded_not_applicable"] = rs["not_applicable"]
     out["missed"] = list(out.get("missed", [])) + rs["missed"]
+    from .variants import replay_benign
+    rb = replay_benign(prop, A)
+    out["refactorings_replayed"] = rb["replayed"]
+    out["refactorings_silent"] = rb["silent"]
+    out["refactorings_not_applicable"] = rb["not_applicable"]
+    out["missed"] += rb["missed"]
     return out
 
 
